@@ -18,7 +18,18 @@ TRUSTED = ("Trusted base: the simulator in /verif/sim (virtual-time loop, link m
            "models) and CPython's asyncio scheduler. Pure-python zeroconf from /repo/src is what runs; the Cython build "
            "and the threaded wrappers are not exercised. A clean batch is sampled evidence, not proof.")
 
+SIM = "deterministic simulation: virtual-time asyncio loop + simulated multicast link, seeded schedule/fault search, "
+
 CHECKS = {
+    "C05": {
+        "text": "Seeded search over response-datagram histories (repeats, refreshes, goodbyes, cache-flush, re-cased names) "
+                "and clock steps around the 1 s flush window, TTL expiry and the 10 s purge, driven through the real "
+                "listener and purge timer of one instance; after every delivery and purge every public lookup path is "
+                "compared with an executable RFC 6762 section 10 reference cache. Exploration: the claim ranges over "
+                "histories and time, and the defect it found (key/value divergence) needs a specific 3-step history.",
+        "technique": SIM + "reference-model (ModelCache) comparison after every event, delta-debugged replay files",
+        "design_ref": "DESIGN.md §5 C05",
+    },
     "C08": {
         "text": "Seeded search over unregister/close timings relative to queued answers (aggregation queue, 1 s "
                 "protected queue, immediate replies) on a real responder; trace oracle: three complete goodbyes, then no "
